@@ -1,6 +1,7 @@
 package ingest
 
 import (
+	"fmt"
 	"context"
 	"errors"
 	"io"
@@ -19,6 +20,22 @@ import (
 type PipeNet struct {
 	Base    boson.Address                                                     // who the handlers see as the remote peer
 	Handler func(peer boson.Address, protocol, stream string) p2p.HandlerFunc // nil result: stream not supported
+}
+
+// handlerPanics collects panics of handler goroutines (a real node would have crashed); the driver reads them after
+// each operation with TakeHandlerPanics and reports them in the operation's event.
+var (
+	hpMu          sync.Mutex
+	handlerPanics []string
+)
+
+// TakeHandlerPanics returns and clears the panics recovered in handler goroutines since the last call.
+func TakeHandlerPanics() []string {
+	hpMu.Lock()
+	defer hpMu.Unlock()
+	p := handlerPanics
+	handlerPanics = nil
+	return p
 }
 
 var errNotSupported = errors.New("pipenet: stream not supported")
@@ -94,6 +111,14 @@ func (n *PipeNet) NewStream(ctx context.Context, addr boson.Address, _ p2p.Heade
 	a2b, b2a := newHalf(), newHalf()
 	client, server := &pipeStream{r: b2a, w: a2b}, &pipeStream{r: a2b, w: b2a}
 	go func() {
+		defer func() {
+			if r := recover(); r != nil {
+				hpMu.Lock()
+				handlerPanics = append(handlerPanics, fmt.Sprint(r))
+				hpMu.Unlock()
+				_ = server.Reset()
+			}
+		}()
 		peer := p2p.Peer{Address: n.Base, Mode: aurora.NewModel().SetMode(aurora.FullNode)}
 		if err := h(context.Background(), peer, server); err != nil {
 			_ = server.Reset() // what the libp2p service does when a handler fails
